@@ -6,6 +6,102 @@
 
 namespace vf { namespace c10 {
 void register_unit_families() { register_group_b(); }
-uint64_t random_cases(bool thorough) { return thorough ? 40000 : 1200; }
-std::vector<Extra>& extras() { static std::vector<Extra> x; return x; }
+uint64_t random_cases(bool thorough) { return thorough ? 100000 : 1500; }
+// ---------------------------------------------------------------- legacy classic-quantiles images synthesised from the documented layout
+// byte0 preLongs 1 serVer 2 family=8 3 flags (bit2 empty, bit3 compact, bit4 sorted) 4-5 k 6-7 unused | u64 n | min | max |
+// serVer 1: preLongs 5 (one more, no longer used, long after max), never compact: 2k base-buffer slots, then the levels
+// serVer 2: preLongs 2, compact flag not set but always stored compact: n mod 2k base-buffer items, then the levels whose bit is set
+// serVer 3 without the compact flag: 2k base-buffer slots, then the levels
+// The accepted (serVer, preLongs, flags) combinations are the table in quantiles_sketch_impl.hpp check_header_validity.
+static void legacy_quantiles_case(int form, int rep) {
+  Rng r(0x9A171E5 + 31 * form + rep);
+  static const uint16_t ks[] = {8, 16, 128};
+  const uint16_t k = ks[rep % 3];
+  // level bit patterns: non-compact forms use patterns without holes (every level below the top one present)
+  static const uint64_t pats_full[] = {0, 1, 3, 7}; static const uint64_t pats_any[] = {0, 1, 2, 5, 6};
+  const bool compact_storage = form == 2;
+  const uint64_t pat = compact_storage ? pats_any[rep % 5] : pats_full[rep % 4];
+  const uint64_t bb = rep % 4 == 3 ? 0 : 1 + r.below(2 * k - 1);
+  const bool empty = rep == 7;
+  const uint64_t n = empty ? 0 : pat * 2 * k + bb == 0 ? 1 : pat * 2 * k + bb;
+  const uint64_t nbb = n % (2ULL * k);
+  std::vector<IW<double>> want;
+  std::vector<double> base, all;
+  for (uint64_t i = 0; i < nbb; ++i) { double v = double(r.below(100000)) * 0.25 - 5000.0; base.push_back(v); want.push_back({v, 1}); all.push_back(v); }
+  std::vector<std::vector<double>> levels;
+  for (unsigned l = 0; (pat >> l) != 0; ++l) {
+    std::vector<double> lv;
+    if ((pat >> l) & 1) { for (unsigned i = 0; i < k; ++i) lv.push_back(double(r.below(100000)) * 0.25 - 5000.0); std::sort(lv.begin(), lv.end()); for (double v : lv) { want.push_back({v, uint64_t(2) << l}); all.push_back(v); } }
+    levels.push_back(lv);
+  }
+  sort_iw(want);
+  const double mn = all.empty() ? 0 : *std::min_element(all.begin(), all.end()), mx = all.empty() ? 0 : *std::max_element(all.begin(), all.end());
+  const bool sorted_flag = form != 1 && (rep & 1);
+  if (sorted_flag) std::sort(base.begin(), base.end());
+  Wr w;
+  const char* name = form == 1 ? "serial-version-1" : form == 2 ? "serial-version-2" : "serial-version-3-not-compact";
+  if (empty) w.u8(1).u8(form == 3 ? 3 : uint8_t(form)).u8(8).u8(4).u16(k).u16(0);
+  else {
+    w.u8(form == 1 ? 5 : 2).u8(form == 3 ? 3 : uint8_t(form)).u8(8).u8(sorted_flag ? 16 : 0).u16(k).u16(0).u64(n).f64(mn).f64(mx);
+    if (form == 1) w.u64(2 * k);   // formerly: allocated buffer size
+    for (double v : base) w.f64(v);
+    if (!compact_storage && pat != 0) for (uint64_t i = nbb; i < 2ULL * k; ++i) w.f64(-777.0);   // unused base-buffer slots
+    for (const auto& lv : levels) for (double v : lv) w.f64(v);
+  }
+  for (int stream = 0; stream < 2; ++stream) {
+    const std::string P = stream ? "stream" : "bytes";
+    const std::string key = std::string("legacy|quantiles|") + name + "|" + P + "|";
+    try {
+      const auto s = QuantFam<double>::read(w.b, stream != 0);
+      VF_CHECK(s.get_k() == k, key + "k", "");
+      VF_CHECK(s.is_empty() == empty, key + "is-empty", "");
+      if (!empty) {
+        VF_CHECK(s.get_n() == n, key + "n", "got " + std::to_string(s.get_n()) + " want " + std::to_string(n));
+        VF_CHECK(s.get_min_item() == mn && s.get_max_item() == mx, key + "min-max", "");
+        VF_CHECK(view_pairs<double>(s) == want, key + "retained-items-and-weights", "k=" + std::to_string(k) + " n=" + std::to_string(n) + " pattern=" + std::to_string(pat));
+        const double med = s.get_quantile(0.5);
+        VF_CHECK(med >= mn && med <= mx, key + "median-outside-min-max", str(med));
+      }
+    } catch (const std::exception& e) { checked(); fail(key + "deserialize-threw", std::string(e.what()) + " k=" + std::to_string(k) + " n=" + std::to_string(n) + " pattern=" + std::to_string(pat)); }
+    count("legacy_quantiles_" + P);
+  }
+  count(std::string("legacy_quantiles_") + name);
+  sig(img_hash(w.b));
+}
+
+// ---------------------------------------------------------------- KLL: single item stored in the full (serial version 1) layout
+// byte0 preInts=5 1 serVer=1 2 family=15 3 flags 4-5 k 6 m=8 7 unused | u64 n=1 | u16 minK u8 numLevels=1 u8 unused | u32 levels[0]=k-1 | min | max | item
+template<typename T> static void legacy_kll_single(int rep) {
+  Rng r(0x4B11 + rep);
+  static const uint16_t ks[] = {8, 200, 333};
+  const uint16_t k = ks[rep % 3];
+  const T item = static_cast<T>(double(r.below(1000)) * 0.5 - 100.0);
+  Wr w; w.u8(5).u8(1).u8(15).u8(rep & 1 ? 2 : 0).u16(k).u8(8).u8(0).u64(1).u16(k).u8(1).u8(0).u32(uint32_t(k) - 1);
+  for (int i = 0; i < 3; ++i) { if (sizeof(T) == 4) w.f32(float(item)); else w.f64(double(item)); }
+  for (int stream = 0; stream < 2; ++stream) {
+    const std::string P = stream ? "stream" : "bytes";
+    const std::string key = std::string("legacy|kll|single-item-in-full-layout|") + P + "|";
+    try {
+      const auto s = KllFam<T>::read(w.b, stream != 0);
+      VF_CHECK(s.get_k() == k && s.get_n() == 1 && s.get_num_retained() == 1 && !s.is_empty() && !s.is_estimation_mode(), key + "counts", "");
+      VF_CHECK(s.get_min_item() == item && s.get_max_item() == item && s.get_quantile(0.5) == item, key + "item", "");
+      const std::string re = KllFam<T>::write(s, false);   // today's writer uses the short single-item form
+      Kll<T> d = decode_kll<T>(re.data(), re.size());
+      VF_CHECK(d.single && d.items.size() == 1 && d.items[0] == item, key + "rewritten-as-single-item-form", "");
+    } catch (const std::exception& e) { checked(); fail(key + "deserialize-threw", e.what()); }
+    count("legacy_kll_" + P);
+  }
+  sig(img_hash(w.b));
+}
+
+std::vector<Extra>& extras() {
+  static std::vector<Extra> x;
+  static bool init = false;
+  if (!init) {
+    init = true;
+    for (int form = 1; form <= 3; ++form) for (int rep = 0; rep < 8; ++rep) x.push_back(Extra{"legacy quantiles form " + std::to_string(form), [form, rep]() { legacy_quantiles_case(form, rep); }});
+    for (int rep = 0; rep < 4; ++rep) { x.push_back(Extra{"legacy kll float", [rep]() { legacy_kll_single<float>(rep); }}); x.push_back(Extra{"legacy kll double", [rep]() { legacy_kll_single<double>(rep); }}); }
+  }
+  return x;
+}
 } }
